@@ -12,6 +12,7 @@ from vf import ref_sgml
 from vf import universe as U
 from vf import wire
 from vf.checks.c04 import to_et
+from vf.checks import c06
 from vf.core import vacuous, HarnessError, Tally
 
 LEVEL = "fault_enumeration"
@@ -63,6 +64,8 @@ def extra_items_for(target):
 
 
 def item_by_label(target, label):
+    if label.endswith("-again"):
+        label = label[: -len("-again")]
     d = dict(items_for(target))
     if label in d:
         return d[label]
@@ -221,17 +224,31 @@ def work(chunk):
                             for r in ROUTES:
                                 do_case(t, clsname, base_terms, r, sdoc, mutated, lab, dict(case, route=r))
                             t.count("insertions")
+            if bk == "MIN" or (bk == "MAXS" and deep > depth):
+                # once more with the library's loggers at DEBUG: the vendor-prefixed items at every position of the root
+                with c06.verbose_logging({"loglevel": "DEBUG"}):
+                    for (label, item) in items_for(sdoc):
+                        if not label.startswith("vendor-") and deep <= depth:
+                            continue
+                        for pos in range(len(sdoc[1]) + 1):
+                            mutated = insert_at(sdoc, [], pos, item)
+                            case = {"cls": clsname, "base": bk, "path": [], "inserts": [[pos, label]], "logging": "DEBUG"}
+                            for r in ROUTES:
+                                do_case(t, clsname, base_terms, r, sdoc, mutated, [label, "logging-at-DEBUG"], dict(case, route=r))
+                            t.count("insertions")
             if pairs and bk == "MIN":
                 items = items_for(sdoc)
                 npos = len(sdoc[1]) + 1
-                combos = [(4, 8), (8, 9), (8, 8), (4, 6), (9, 4), (0, 2)]  # (item index, item index)
+                combos = [(4, 8), (8, 9), (8, 8), (4, 6), (9, 4), (0, 2), (8, -8), (9, -9), (4, -4)]  # (item index, item index); negative: the very same item again
                 for p1 in range(npos):
                     for p2 in range(p1, npos):
                         for (i1, i2) in combos:
                             l1, it1 = items[i1]
-                            l2, it2 = items[i2]
+                            l2, it2 = items[abs(i2)]
                             if i1 == i2:
                                 it2 = (it2[0].replace("BID", "USERID"), it2[1])
+                            if i2 < 0:
+                                l2 = l2 + "-again"
                             m = insert_at(sdoc, [], p2, it2)
                             m = insert_at(m, [], p1, it1)
                             case = {"cls": clsname, "base": bk, "path": [], "inserts": [[p1, l1], [p2, l2]]}
@@ -266,7 +283,7 @@ def run(ctx):
         "rule": "every class x {MIN, MAXS} document x every child position of the root aggregate"
         + (" and of every aggregate one level below it" if ctx.thorough else " (one level deeper for the classes around MAIL/MFINFO/STOCKINFO)") +
         " x 10 unknown items (element / aggregate whose name is a tag of OTHER classes, digit-initial aggregate wrapping a known child, digit-initial element, data element, empty "
-        "element, aggregate with nested content, aggregate wrapping a known child, vendor-prefixed element, vendor-prefixed aggregate) x 3 routes; + an unknown and a vendor aggregate wrapping a copy of each child, in front of that child and at the beginning; + an unknown element named like every non-child attribute of the class (properties, methods, list API); + on MIN every pair of positions x 6 item pairs (incl. two vendor tags, same and different positions); distinct_nontrivial = distinct "
+        "element, aggregate with nested content, aggregate wrapping a known child, vendor-prefixed element, vendor-prefixed aggregate) x 3 routes; + an unknown and a vendor aggregate wrapping a copy of each child, in front of that child and at the beginning; + an unknown element named like every non-child attribute of the class (properties, methods, list API); + on MIN every pair of positions x 6 item pairs (incl. two vendor tags, the very same unknown / vendor item twice, same and different positions); the vendor items again on MIN with the loggers at DEBUG; distinct_nontrivial = distinct "
         "(document, insertion) pairs, evaluations = those x routes",
         "classes": tally.counts.get("classes", 0),
         "exhaustive": True,
@@ -286,7 +303,8 @@ def replay(ctx, case):
     r = case.get("route", "tree")
     inst, _ = convert_route(r, sdoc)
     print(" document:", ref_sgml.render(m))
-    do_case(t, case["cls"], {r: S.inst_to_term(inst)}, r, sdoc, m, ["replay"], case)
+    with c06.verbose_logging({"loglevel": case.get("logging")}):
+        do_case(t, case["cls"], {r: S.inst_to_term(inst)}, r, sdoc, m, ["replay"], case)
     for sig, (n, c, d) in sorted(t.fails.items()):
         print(" ", sig, "|", d)
     return bool(t.fails)
